@@ -164,7 +164,7 @@ PROPS = {
         harness_test="TestC07",
         n_quick=300, n_thorough=3000, thorough_seeds=6, timeout_quick=900,
         # the attestation verdict and the success effects printed by the driver are the property's own subject
-        spec_ops=["attest"],
+        spec_ops=["attest", "attestev"],
         rule="keeper layer on the full app with an active EVM chain: messages of every action type put in the queue, estimate election, real validator signatures, the real expected call data (compass ABI) wrapped in a real ethtypes.Transaction + receipt, "
              "evidence from a quorum through CheckAndProcessAttestedMessages (one scenario through real MsgAddEvidence txs and the real end blocker); corruptions: single/multi-field edits of the call data, wrong signature-prefix length, failed receipt, "
              "re-submission of a used tx, evidence before estimate election; distinct = distinct op text; non-trivial = an attestation attempt reached the action attester",
